@@ -213,7 +213,8 @@ class PhaseMonitor(Monitor):
 
 
 def make_monitors():
-    return [driver.Observer(), driver.Interleaver(), PhaseMonitor()]
+    return [driver.Observer(), driver.Interleaver(),
+            driver.FinalShowdownRule(), PhaseMonitor()]
 
 
 def gen_kwargs(rng):
